@@ -29,6 +29,22 @@ func VerifDir() string {
 	return "/verif"
 }
 
+// RepoDir is the repository the monitors were built against (for test data).
+func RepoDir() string {
+	if d := os.Getenv("VERIF_REPO"); d != "" {
+		return d
+	}
+	return "/repo"
+}
+
+// EvidenceDir is where the evidence file is written.
+func EvidenceDir() string {
+	if d := os.Getenv("VERIF_EVIDENCE_DIR"); d != "" {
+		return d
+	}
+	return filepath.Join(VerifDir(), "evidence")
+}
+
 // KnownFinding is one entry of known_findings.json.
 type KnownFinding struct {
 	Property    string `json:"property"`
@@ -299,7 +315,7 @@ func (r *Run) Finish() {
 	r.mu.Unlock()
 
 	if r.replay == nil {
-		dir := filepath.Join(VerifDir(), "evidence")
+		dir := EvidenceDir()
 		_ = os.MkdirAll(dir, 0o755)
 		bz, _ := json.MarshalIndent(ev, "", " ")
 		if err := os.WriteFile(filepath.Join(dir, r.ID+".json"), bz, 0o644); err != nil {
